@@ -82,6 +82,7 @@ struct Checker {
     if (!w.ok) { report("layout:" + shortClass(w.what), w.what + " (item " + std::to_string(w.badItem) + ")"); return; }
     size_t bad = 0; std::string j = asmgen::judgeRefs(items, w, bad);
     if (!j.empty()) { report("ref:" + shortClass(j), j + " (item " + std::to_string(bad) + ")"); return; }
+    if (r.headerBytes >= 0 && (size_t)r.headerBytes != r.bin.size()) { report("header-length", "header length " + std::to_string(r.headerBytes) + " bytes but the emitted image has " + std::to_string(r.bin.size())); return; }
     if (withFile) {
       auto img = refisa::parseImage(r.file);
       st.add("files_checked");
@@ -100,6 +101,10 @@ struct Checker {
 };
 
 static std::vector<uint32_t> gapSet(int level) {
+  // level 3/4: small gaps plus every size from 8 below to 1 above each boundary, so that SUMS of gaps (plus the 1..3-byte references between
+  // them) also land on both sides of every boundary: needed for chains in which one reference's growth pushes another over its boundary
+  if (level == 3 || level == 4) { std::vector<uint32_t> g = {0, 1, 2, 3}; for (uint32_t c : {16u, 256u}) for (int d = -8; d <= 1; d++) g.push_back(c + d); if (level == 4) for (int d = -8; d <= 1; d++) g.push_back(4096 + d); return g; }
+  if (level == 5) return {0, 1, 3, 13, 14, 15, 252, 253, 254, 255};
   // boundary-straddling filler sizes: around 16, 256, 4096, 65536 in both directions (the reference itself adds 1..5 bytes)
   if (level == 0) return {0, 1, 3, 14, 15, 16, 254, 255};
   if (level == 1) return {0, 1, 2, 3, 13, 14, 15, 16, 17, 253, 254, 255, 256, 257, 4093, 4094, 4095, 4096, 4097};
@@ -135,9 +140,9 @@ int main(int argc, char **argv) {
   struct Fam { std::string name; int maxLen, maxLabels, gapLevel; bool proc, text; };
   std::vector<Fam> fams;
   if (!ctx.thorough()) {
-    fams = {{"len3-gaps19", 3, 2, 1, true, false}, {"len4-gaps8", 4, 3, 0, false, false}, {"len3-gaps8-text", 3, 2, 0, true, true}};
+    fams = {{"len3-gaps19", 3, 2, 1, true, false}, {"len4-gaps24", 4, 3, 3, false, false}, {"len3-gaps8-text", 3, 2, 0, true, true}};
   } else {
-    fams = {{"len3-gaps36", 3, 2, 2, true, false}, {"len4-gaps19", 4, 3, 1, false, false}, {"len3-gaps19-text", 3, 2, 1, true, true}, {"len5-gaps8", 5, 3, 0, false, false}};
+    fams = {{"len3-gaps36", 3, 2, 2, true, false}, {"len4-gaps34", 4, 3, 4, false, false}, {"len3-gaps19-text", 3, 2, 1, true, true}, {"len5-gaps10", 5, 3, 5, false, false}};
   }
   for (auto &f : fams) {
     if (ctx.expired()) { rep.caps.push_back("family " + f.name + " not started (deadline)"); continue; }
